@@ -1,6 +1,7 @@
 package main
 
 import (
+	"os"
 	"fmt"
 	"go/ast"
 	"go/constant"
@@ -142,23 +143,20 @@ func c03Whitespace(w *World, r *Report) {
 		return true
 	})
 	r.Check(direct == 0, "R03.7", "CommonLex.LexName raw look-ahead", lfd.Pos(), "no direct Next()/peek/line access", fmt.Sprintf("LexName reads the input directly %d times; every look-ahead must skip whitespace (XPath §3.7 'possibly after intervening ExprWhitespace')", direct))
-	isWS := w.Method("xpath", "CommonLex", "isWhitespace")
+	_ = w.Method("xpath", "CommonLex", "isWhitespace")
 	for _, name := range []string{"NextNonWhitespace", "NextNonWhitespaceStringIs"} {
 		m := w.Method("xpath", "CommonLex", name)
-		mfd, mp := w.FuncDecl(m)
+		mfd, _ := w.FuncDecl(m)
 		ok := false
-		ast.Inspect(mfd.Body, func(n ast.Node) bool {
-			if fs, isFor := n.(*ast.ForStmt); isFor && fs.Cond != nil {
-				if len(allCallsTo(mp, fs.Cond, isWS)) > 0 && !condNegates(mp, fs.Cond, isWS) {
-					// body must advance
-					adv := len(allCallsTo(mp, fs.Body, nextM)) > 0 || len(allCallsTo(mp, fs.Body, w.Func("xpath", "next"))) > 0
-					if adv {
-						ok = true
-					}
-				}
+		// a loop that reads a rune each time round and goes round exactly for the whitespace characters
+		for _, ll := range lexLoops(w, w.SSAFunc(m)) {
+			if os.Getenv("YV_DEBUG") != "" {
+				fmt.Println("DEBUG lexloop", name, ll.consumes, ll.decided, ll.round.String())
 			}
-			return true
-		})
+			if ll.consumes && ll.decided && ll.round.equal(wsSet) {
+				ok = true
+			}
+		}
 		used := len(allCallsTo(lp, lfd.Body, m)) > 0
 		r.Check(ok && used, "R03.7", "CommonLex."+name, mfd.Pos(), "loops while isWhitespace, advancing; used by LexName", "helper does not skip whitespace in a loop (or LexName no longer uses it)")
 	}
